@@ -900,8 +900,13 @@ class Engine:
                 x = self.operand(fr, ins["x"])
                 self.terminals.append(Terminal("panic", fr.st, site, x))
                 return
-            self.step(fr, ins, site)
+            alts = self.step(fr, ins, site)
             if fr.dead:
+                return
+            if alts:
+                # the instruction needed a case split (symbolic index over reference-valued elements)
+                for (s2, r2) in alts:
+                    self.run_block(f, b, i + 1, s2, r2, args, fvs, pending, rets, back, loopinfo)
                 return
             i += 1
         raise Unsupported("block without terminator in %s" % f.short)
@@ -1007,7 +1012,7 @@ class Engine:
                 self.oblige(st, "no-panic", "index@" + site, z3.UGE(i64, z3.BitVecVal(ln, 64)))
                 R[ins["n"]] = self._get(x, (i64,))
         elif op == "UnOp":
-            self.unop(fr, ins, site)
+            return self.unop(fr, ins, site)
         elif op == "BinOp":
             self.binop(fr, ins, site)
         elif op == "Store":
@@ -1091,6 +1096,31 @@ class Engine:
         else:
             raise Unsupported("instruction %s" % op)
 
+    def split_load(self, fr, ins, x):
+        """load through a symbolic index whose candidates are references that cannot be merged (slices, closures, ...):
+        case split on the index value"""
+        k = None
+        for j, stp in enumerate(x.path):
+            if not isinstance(stp, int):
+                k = j
+                break
+        if k is None:
+            raise Unsupported("unmergeable load without a symbolic index")
+        cont = self._get(fr.st.heap[x.obj], x.path[:k])
+        if not isinstance(cont, ArrV) or len(cont.items) > 64:
+            raise Unsupported("case split over %r" % (cont,))
+        alts = []
+        t = x.path[k]
+        for i in range(len(cont.items)):
+            s2 = fr.st.fork()
+            s2.pc.append(t == z3.BitVecVal(i, 64))
+            if not self.feasible(s2):
+                continue
+            r2 = dict(fr.regs)
+            r2[ins["n"]] = self.load(s2, Ptr(x.obj, x.path[:k] + (i,) + x.path[k + 1:]))
+            alts.append((s2, r2))
+        return alts
+
     def nil_deref(self, fr, site):
         self.oblige(fr.st, "no-panic", "nil@" + site, z3.BoolVal(True))
         self.terminals.append(Terminal("panic", fr.st, site, "nil dereference"))
@@ -1107,7 +1137,10 @@ class Engine:
             if x.obj is None:
                 self.nil_deref(fr, site)
                 return
-            R[ins["n"]] = self.load(fr.st, x)
+            try:
+                R[ins["n"]] = self.load(fr.st, x)
+            except Unmergeable:
+                return self.split_load(fr, ins, x)
         elif u == "!":
             R[ins["n"]] = z3.Not(x)
         elif u == "-":
